@@ -196,6 +196,9 @@ def multi_chrom(res, scratch, tier):
             lines = g.lines()
             t = "".join(lines[i] + "\n" for i in list(range(len(lines)))[::-1])
             judge_run(res, scratch, t, chains, ",".join(names), None, False, "multi-chromosome, reversed line order")
+            # L lines first, S lines after them, and no newline after the last (S) line
+            t2 = "".join(x + "\n" for x in [l for l in lines if l.startswith("L")] + [l for l in lines if not l.startswith("L")])[:-1]
+            judge_run(res, scratch, t2, chains, ",".join(names), None, False, "multi-chromosome, L lines first, no final newline")
     # two runs into the same output directory with different chromosome orders (complete file mode): the second result
     # must be that of the second request only
     a_ = gen.Chain(["snp"], chrom="chr1", decl="alt")
